@@ -1013,6 +1013,71 @@ func TestVerifC01(t *testing.T) {
 			out.Emit(ps.historyCase())
 		}
 	}
+	{
+		// round 7: the GLOBAL filtering switch off, a client with own settings
+		// and filtering ON: the engines are built at start-up and rebuilt
+		// after every change whatever the global switch says, so that client
+		// is answered by the latest rules; a client with global settings is
+		// not filtered
+		own := netip.MustParseAddr("10.0.0.1")
+		glob := netip.MustParseAddr("10.0.0.2")
+		for variant := 0; variant < 3; variant++ {
+			c := base()
+			c.Filtering = variant != 0
+			c.Clients = []plClient{{Name: "own-on", IPs: []string{"10.0.0.1"}, UseOwn: true, Filtering: true}}
+			c.Lists = []*plList{{Name: "ads", Rules: []*vfRule{{ID: 100, Pattern: "||xa.test^"}}}}
+			ps := plNewServer(t, c)
+			ps.queueMode = true
+			from := func(addr netip.Addr, name string, extra ...string) {
+				q := &plQuery{Name: name, QType: dns.TypeA, Addr: addr, Answer: c01Answer(rnd.Fork(13), name, dns.TypeA)}
+				ps.qAsk(out, q, emit, extra...)
+			}
+			switch variant {
+			case 0:
+				// started with the global switch off
+				from(own, "xa.test.", "prelude-global-off-at-startup-own-client-blocked")
+				from(glob, "xa.test.", "prelude-global-off-global-client-not-filtered")
+				ps.qSetRules(t, out, []*vfRule{{Pattern: "||a.test^"}})
+				ps.qLoop(t, out)
+			case 1:
+				// switched off while running, then the rules change
+				ps.qConfig(t, out, false)
+				ps.qLoop(t, out)
+				from(own, "xa.test.")
+				ps.qSetRules(t, out, []*vfRule{{Pattern: "||a.test^"}})
+				ps.qLoop(t, out)
+			default:
+				// switched off behind a queued task, a list added and one switched off
+				ps.qSetRules(t, out, []*vfRule{{Pattern: "||x.test^"}})
+				ps.qConfig(t, out, false)
+				ps.qAddURL(t, out, &plList{Name: "more", Rules: []*vfRule{{ID: 300, Pattern: "||a.test^"}}})
+				ps.qSetURL(t, out, 0, false)
+				ps.qLoop(t, out)
+			}
+			from(own, "b.a.test.", "prelude-global-off-own-client-blocked-by-latest-rules")
+			from(glob, "b.a.test.", "prelude-global-off-global-client-not-filtered")
+			from(own, "xa.test.")
+			ps.qConfig(t, out, true)
+			ps.qLoop(t, out)
+			from(glob, "a.test.", "prelude-global-on-again")
+			from(own, "x.test.")
+			out.Emit(ps.historyCase())
+		}
+	}
+	{
+		// round 7: exact-host and hosts-style lines in an allow list exempt the
+		// name like any other allow-list entry
+		c := base()
+		c.Block = []*vfRule{{ID: 100, Pattern: "||a.test^"}, {ID: 101, Pattern: "||x.test^"}}
+		c.Allow = []*vfRule{{ID: 200, IsHost: true, Names: []string{"b.a.test"}},
+			{ID: 201, IsHost: true, HasIP: true, IP: netip.MustParseAddr("1.2.3.4"), Names: []string{"x.test"}}}
+		ps := plNewServer(t, c)
+		for _, qt := range []uint16{dns.TypeA, dns.TypeAAAA} {
+			ask(ps, "b.a.test.", qt, "prelude-allow-list-exact-host-line")
+			ask(ps, "x.test.", qt, "prelude-allow-list-hosts-style-line")
+		}
+		ask(ps, "a.test.", dns.TypeA)
+	}
 	nQ := out.Scale(36, 1000)
 	for i := 0; i < nQ; i++ {
 		c := plGenCfg(rnd, vfNames)
@@ -1021,6 +1086,13 @@ func TestVerifC01(t *testing.T) {
 		}
 		if rnd.Chance(1, 2) {
 			c.Clients, c.Svcs, c.SB, c.Par = nil, nil, false, false
+		}
+		if rnd.Chance(1, 3) {
+			// the global switch off at start-up (or switched later), one
+			// client with own settings and filtering on
+			c.ProtEnabled, c.Deadline = true, 0
+			c.Filtering = rnd.Chance(1, 3)
+			c.Clients = []plClient{{Name: "own-on", IPs: []string{"10.0.0.1"}, UseOwn: true, Filtering: true}}
 		}
 		plGenLists(rnd, c, vfNames)
 		ps := plNewServer(t, c)
